@@ -74,3 +74,20 @@ package cache
 //@   ensures [C20:value-buffer-released-once] nRel == (old(e.v) != nil ? 1 : 0) && !held && nPut == 1
 //@   callsite ReleaseBuf?: [C20:released-under-the-write-lock] held && sameSlice(arg0, old(e.v), 0, len(old(e.v)))
 //@   callsite Put: [C20:entry-recycled-after-it-was-cleared] !held && e.v == nil && len(e.k) == 0
+
+// constructors of the cache back ends (otter / rueidis set-up): assumed to deliver a usable back end or an error
+//@ func NewMemoryCache(size int) (c *MemoryCache, err error)
+//@   trusted
+//@   modifies nothing
+//@   ensures (err == nil) == (c != nil)
+//@   ensures err == nil ==> fresh(c) && memOK(c)
+//@ func NewRedisCache(u string, logger *zerolog.Logger) (c *RedisCache, err error)
+//@   trusted
+//@   modifies nothing
+//@   ensures (err == nil) == (c != nil)
+//@ func (c *MemoryCache) Collectors() (cs []prometheus.Collector)
+//@   trusted
+//@   modifies nothing
+//@ func (c *RedisCache) Collectors() (cs []prometheus.Collector)
+//@   trusted
+//@   modifies nothing
